@@ -275,11 +275,14 @@ def run_scenario(sc, legacy):
         # point k = inject after k progress steps (a progress step = release a gate, or advance 2.5 s into a sleep)
         point = 0
         injected = False
+        alive_at_injection = False
         steps = 0
         released_b0 = False
         while steps < 40:
             steps += 1
             if fault and not injected and point == fp:
+                vt = g["TASKS"].get("T")
+                alive_at_injection = vt is not None and not vt.done()
                 inject()
                 injected = True
             t = g["TASKS"].get("T")
@@ -302,12 +305,12 @@ def run_scenario(sc, legacy):
             w.settle()
         w.advance(30)
         w.collect()
-        return observe(w, sc, g, marks, exec_threads, loop_thread, fault, injected)
+        return observe(w, sc, g, marks, exec_threads, loop_thread, fault, injected, alive_at_injection)
     finally:
         w.close()
 
 
-def observe(w, sc, g, marks, exec_threads, loop_thread, fault, injected):
+def observe(w, sc, g, marks, exec_threads, loop_thread, fault, injected, alive_at_injection=False):
     from custom_components.pyscript.function import Function
 
     kind, regs, body, end, fault, fp = sc
@@ -319,7 +322,8 @@ def observe(w, sc, g, marks, exec_threads, loop_thread, fault, injected):
     if not t.done():
         return {"kind": "victim-not-ended", "observed": [m for m in marks if m[0] == "T"]}, out
     tm = [m for m in marks if m[0] == "T"]
-    killed = injected and ("T", "end") not in tm and end == "return"
+    # the victim was still running when the kill / take-over / unload was injected: it ends cancelled, whatever it would have done
+    killed = injected and ("T", "end") not in tm and (end == "return" or (alive_at_injection and end == "raise"))
     # 1. callbacks: each registered, not removed callback exactly once, after T ended
     cbs = sorted(repr(("cb", m[1], m[2], m[3])) for m in marks if m[0] == "cb")
     exp_cbs = expected_callbacks(regs)
